@@ -144,6 +144,10 @@ class _Run:
             return env
         if isinstance(s, ast.Expr):
             self.ev(s.value, env)
+            sv = self.setvals_marker(s.value)
+            if sv:
+                env = dict(env)
+                env[sv[0]] = self.src("setvals", sv[1], "%s holds sets as values (`%s`)" % (sv[0], " ".join(u(s.value).split())[:50]), s.lineno)
             # receiver side effects of mutating methods
             v = s.value
             if isinstance(v, ast.Call) and isinstance(v.func, ast.Attribute) and v.func.attr in ("append", "extend", "insert", "add", "update", "add_node", "add_edge", "write", "appendleft"):
@@ -187,6 +191,11 @@ class _Run:
             for n in ast.walk(s.target):
                 if isinstance(n, ast.Name):
                     env[n.id] = None
+            sv = self.setvals_iter(s.iter, env)
+            if sv is not None:
+                tgt = s.target.elts[-1] if isinstance(s.target, ast.Tuple) else s.target
+                if isinstance(tgt, ast.Name):
+                    env[tgt.id] = Taint("set", sv.cls, sv.src, line=sv.line)
             self.loopvars.append((s, carried))
             if carried is not None:
                 self.check_loop_body(s, carried, env)
@@ -238,6 +247,15 @@ class _Run:
             return env
         return env
 
+    def setvals_marker(self, e):
+        """X.setdefault(k, set()) [.add(..)]  ->  (X, cls)"""
+        for n in ast.walk(e):
+            if isinstance(n, ast.Call) and isinstance(n.func, ast.Attribute) and n.func.attr == "setdefault" and isinstance(n.func.value, ast.Name) and len(n.args) == 2:
+                d = n.args[1]
+                if isinstance(d, (ast.Set, ast.SetComp)) or (isinstance(d, ast.Call) and u(d.func) in ("set", "frozenset")):
+                    return n.func.value.id, hint_cls(e)
+        return None
+
     def singleton_guard(self, s):
         t = s.test
         if isinstance(t, ast.Compare) and len(t.ops) == 1 and isinstance(t.left, ast.Call) and u(t.left.func) == "len" and len(t.left.args) == 1 \
@@ -246,6 +264,13 @@ class _Run:
             if (isinstance(t.ops[0], ast.Gt) and c == 1) or (isinstance(t.ops[0], ast.GtE) and c == 2) or (isinstance(t.ops[0], ast.NotEq) and c == 1):
                 if s.body and isinstance(s.body[-1], ast.Raise) and not s.orelse:
                     return t.left.args[0].id
+        return None
+
+    def setvals_iter(self, it, env):
+        if isinstance(it, ast.Call) and isinstance(it.func, ast.Attribute) and it.func.attr in ("items", "values") and isinstance(it.func.value, ast.Name):
+            t = env.get(it.func.value.id)
+            if t is not None and t.kind == "setvals":
+                return t
         return None
 
     def assign(self, tg, t, env, node, value):
@@ -270,6 +295,9 @@ class _Run:
                         env[r] = t.as_("map")
                 else:
                     self.report(node, "escape: arbitrarily ordered %s stored into %s" % (t.kind, u(tg)), t)
+            elif isinstance(tg, ast.Subscript) and isinstance(tg.value, ast.Name) and (isinstance(value, (ast.Set, ast.SetComp)) or (isinstance(value, ast.Call) and u(value.func) in ("set", "frozenset"))):
+                env = dict(env)
+                env[tg.value.id] = self.src("setvals", hint_cls(value) if not isinstance(value, ast.Call) or value.args else "str", "%s holds sets as values" % tg.value.id, node.lineno)
             elif isinstance(tg, ast.Subscript) and isinstance(tg.value, ast.Name):
                 lv = [x for x in self.loopvars if x[1] is not None]
                 if lv and env.get(tg.value.id) is None and tg.value.id not in self.f.params:
@@ -375,6 +403,8 @@ class _Run:
             self.ev(e.slice, env)
             if t is not None and t.kind in ("seq", "set"):
                 self.report(e, "indexing / slicing of an arbitrarily ordered sequence", t)
+            if t is not None and t.kind == "setvals" and not isinstance(e.slice, ast.Slice):
+                return Taint("set", t.cls, t.src, line=t.line)
             return None
         if isinstance(e, ast.Starred):
             return self.ev(e.value, env)
